@@ -31,6 +31,11 @@ for p in props:
         "level_note": m.get("level_note", "; ".join(c.get("trusted_base", []))),
         "technique": m.get("technique", "Lean 4 theorems over an executable model + differential correspondence with the Go/C implementation"),
     })
+import subprocess
+hook_commits = subprocess.run(["git", "-C", "/repo", "log", "--format=%H %s", "--reverse", "-i", "--grep=^verif hook"],
+                              capture_output=True, text=True).stdout.strip().splitlines()
+if hook_commits:
+    base["hooks"]["source_commits"] = [l.split()[0] for l in hook_commits]
 man = {
     "version": 1,
     "setup_cmd": "cd /verif && ./check --setup",
